@@ -299,14 +299,17 @@ def programs(draw, dynamic=None):
         counter[0] += 1
         return f"{p}{counter[0]}"
 
-    def drange():
-        b = draw(st.sampled_from(INT_BOUNDS))
+    def drange(ar=False):
+        # inside arithmetic keep |value| < 2^65: int * float overflows beyond 2^1024 (plain
+        # Python semantics, not the property under test)
+        b = draw(st.sampled_from([x for x in INT_BOUNDS if abs(x) < 2 ** 65] if ar
+                                 else INT_BOUNDS))
         lo = b - draw(st.integers(0, 2))
         hi = b + draw(st.integers(0, 2))
         return ["drange", lo, hi]
 
-    def num(d):
-        """numeric (int or float valued) expression"""
+    def num(d, ar=False):
+        """numeric (int or float valued) expression; ar = used as an operand of arithmetic"""
         ch = ["c", "range", "range", "normal", "tnormal", "drange", "drange"]
         if nums:
             ch += ["v", "v"]
@@ -325,16 +328,16 @@ def programs(draw, dynamic=None):
             lo = draw(st.sampled_from([-2.0, -1, 0, 0.5, 1, 3]))
             return ["range", ["c", lo], ["c", lo + draw(st.sampled_from([0.5, 1, 2, 4.5]))]]
         if k == "nrange":  # bounds themselves random (nested, never encoded themselves)
-            lo = num(d - 1)
+            lo = num(d - 1, True)
             return ["range", lo, ["bin", "+", lo, ["c", draw(st.sampled_from([1, 2.5]))]]]
         if k == "normal":
-            mean = num(d - 1) if d > 0 and draw(st.booleans()) else _const_num(draw)
+            mean = num(d - 1, True) if d > 0 and draw(st.booleans()) else _const_num(draw)
             return ["normal", mean, draw(st.sampled_from([0.5, 1, 2.0]))]
         if k == "tnormal":
             m = draw(st.sampled_from([0, 1.5, -2]))
             return ["tnormal", ["c", m], draw(st.sampled_from([0.5, 1.0])), m - 1, m + 2]
         if k == "drange":
-            return drange()
+            return drange(ar)
         if k == "bigopts":
             return ["bigopts", draw(st.sampled_from([254, 256, 260]))]
         if k == "uni":
@@ -342,19 +345,20 @@ def programs(draw, dynamic=None):
                 # options with equal values but different payloads: a variable, and a nested
                 # choice between the same variable and a fresh distribution
                 v = ["v", draw(st.sampled_from(nums))]
-                return ["uni", [v, ["uni", [v, ["range", ["c", 0], ["c", 1]]]], drange()]]
+                return ["uni", [v, ["uni", [v, ["range", ["c", 0], ["c", 1]]]], drange(ar)]]
             n = draw(st.integers(1, 4))
-            return ["uni", [num(d - 1) for _ in range(n)]]
+            return ["uni", [num(d - 1, ar) for _ in range(n)]]
         if k == "disc":
             n = draw(st.integers(2, 3))
-            return ["disc", [[num(d - 1), draw(st.sampled_from([1, 2, 0.5, 3]))]
+            return ["disc", [[num(d - 1, ar), draw(st.sampled_from([1, 2, 0.5, 3]))]
                              for _ in range(n)]]
         if k == "bin":
-            return ["bin", draw(st.sampled_from(["+", "-", "*"])), num(d - 1), num(d - 1)]
+            return ["bin", draw(st.sampled_from(["+", "-", "*"])), num(d - 1, True),
+                    num(d - 1, True)]
         if k == "neg":
-            return ["neg", num(d - 1)]
+            return ["neg", num(d - 1, ar)]
         if k == "call":
-            return ["call", "pyfun", [num(d - 1), num(d - 1)]]
+            return ["call", "pyfun", [num(d - 1, True), num(d - 1, True)]]
         if k == "resample":
             return ["resample", draw(st.sampled_from(prims))]
         if k == "idx":
@@ -523,7 +527,7 @@ def programs(draw, dynamic=None):
         return prog
 
     # ---- dynamic part --------------------------------------------------------------------
-    def rnum(d, locs):
+    def rnum(d, locs, ar=False):
         """numeric expression evaluated at run time (random values drawn immediately)"""
         ch = ["c", "range", "normal", "drange", "uni", "disc", "tnormal"]
         if locs:
@@ -543,25 +547,25 @@ def programs(draw, dynamic=None):
             lo = draw(st.sampled_from([-1, 0, 0.5, 2]))
             return ["range", ["c", lo], ["c", lo + draw(st.sampled_from([0.5, 1, 3]))]]
         if k == "nrange":
-            lo = rnum(d - 1, locs)
+            lo = rnum(d - 1, locs, True)
             return ["range", lo, ["bin", "+", lo, ["c", 2]]]
         if k == "normal":
             return ["normal", _const_num(draw), draw(st.sampled_from([0.5, 1]))]
         if k == "tnormal":
             return ["tnormal", ["c", 0], 1.0, -1, 2]
         if k == "drange":
-            return drange()
+            return drange(ar)
         if k == "uni":
-            return ["uni", [rnum(d - 1, locs) if d > 0 else _const_num(draw)
+            return ["uni", [rnum(d - 1, locs, ar) if d > 0 else _const_num(draw)
                             for _ in range(draw(st.integers(2, 4)))]]
         if k == "disc":
             return ["disc", [[_const_num(draw), 1], [["c", 4.5], 2],
                              [["range", ["c", 0], ["c", 1]], 0.5]]]
         if k == "bin":
-            return ["bin", draw(st.sampled_from(["+", "-", "*"])), rnum(d - 1, locs),
-                    rnum(d - 1, locs)]
+            return ["bin", draw(st.sampled_from(["+", "-", "*"])), rnum(d - 1, locs, True),
+                    rnum(d - 1, locs, True)]
         if k == "call":
-            return ["call", "pyfun", [rnum(d - 1, locs), rnum(d - 1, locs)]]
+            return ["call", "pyfun", [rnum(d - 1, locs, True), rnum(d - 1, locs, True)]]
         raise AssertionError(k)
 
     def rany(d, locs):
@@ -576,10 +580,10 @@ def programs(draw, dynamic=None):
         if k == "tup":
             return ["list", [rnum(0, locs), ["c", draw(st.sampled_from(STRS))]]]
         if k == "vec":
-            return ["vec", [rnum(0, locs), rnum(0, locs), ["c", 0]]]
+            return ["vec", [rnum(0, locs, True), rnum(0, locs, True), ["c", 0]]]
         if draw(st.booleans()):
-            return ["call", "SetVel", [rnum(0, locs), rnum(0, locs)]]
-        return ["call", "Spin", [rnum(0, locs)]]
+            return ["call", "SetVel", [rnum(0, locs, True), rnum(0, locs, True)]]
+        return ["call", "Spin", [rnum(0, locs, True)]]
 
     subnames = []
 
@@ -599,7 +603,7 @@ def programs(draw, dynamic=None):
                 out.append(["wait"])
             elif k == "let":
                 name = fresh("l")
-                out.append(["let", name, rnum(1, locs)])
+                out.append(["let", name, rnum(1, locs, True)])
                 locs = locs + [name]
             elif k == "loop":
                 out.append(["loop", draw(st.integers(1, 3)),
